@@ -137,6 +137,24 @@ def run_case(case):
         counters["second_runs_on_same_sampler"] += 1
         partners.append("again")
         recorded.judge_evidence(again, where + " [second fresh run on the same sampler object]", viol, counters)
+    if cfg["sampler"] == "smc" and T >= 3 and g.random() < 0.5:
+        # a fault in the middle of an iteration, then continuation from the *live* state dictionary of the last checkpoint
+        # (what a user who keeps the dictionary handed to the callback resumes from)
+        from ..harness import InjectedFault, Probe
+
+        k = int(base.probe.n_like_calls * g.uniform(0.3, 0.8))
+        pf = Probe(base.target, fault_like_at=k, cut_below=cfg.get("cut_below"))
+        f = recorded.record(cfg, probe=pf)
+        if isinstance(f.exc, InjectedFault) and f.payloads:
+            cont = recorded.record(cfg, resume_from=f.payloads[-1]["state"], rng=np.random.default_rng(cfg["rng_seed"] + 29))
+            if cont.exc is not None:
+                raise cont.exc
+            cont.resumed_from_iteration = int(f.payloads[-1]["iteration"])
+            counters["continued_from_live_state_after_fault"] += 1
+            partners.append("livedict")
+            recorded.judge_evidence(cont, where + f" [continued from the live state dictionary of iteration {f.payloads[-1]['iteration']} after a fault at likelihood call {k}]", viol, counters)
+        elif f.exc is not None and not isinstance(f.exc, InjectedFault):
+            raise f.exc
     sched = "fixed" if not cfg["opts"].get("adaptive", True) else ("floor" if "min_step" in cfg["opts"] else ("cap" if "max_n_steps" in cfg["opts"] else "adaptive"))
     sig = f"{cfg['sampler']}|{cfg['xp']}|{cfg['dtype']}|{sched}|{cfg['precond']['preconditioning']}{sorted(cfg['precond']['kwargs'])}|{T}|{'+'.join(partners)}"
     seen = {}
